@@ -29,6 +29,19 @@
 //     terminating programs (a generated program that loops forever or
 //     exhausts the Go stack is property C07's subject, not a handler crash).
 //     Both are counted in the label histogram ("stubbed …").
+//   - The configuration state of the server is a drawn dimension of every case
+//     (Case.Cfg), not a constant: the set of active loggers (baseline, none,
+//     all 29, each single logger, REST plus one, random subsets), the log
+//     format (text / json / indented) and up to three of 33 settings that
+//     switch handler branches at request time (toggles in gen_test.go; the
+//     ones left out and why are listed there). An operator sets all of these
+//     with `ego server logging`, POST /admin/loggers and PATCH /admin/config,
+//     so every drawn state is one a production server can be in. The state is
+//     applied before the request and put back after it.
+//   - The server log is written to a file inside the fixture directory, as for
+//     `ego server start` (so the log-tail handler reads a real log); the file
+//     is truncated when it passes 256 KB or when a case logs in another format
+//     than the file holds (a real server writes one format per file).
 //   - ego.server.ai.endpoint points at a closed loopback port, so the generate
 //     handler runs up to the outbound call and fails fast without a network.
 //   - Login lockout is disabled (ego.server.auth.maxattempts=0), otherwise the
@@ -45,6 +58,7 @@ import (
 	"os"
 	"path/filepath"
 	"sort"
+	"strconv"
 	"strings"
 	"sync"
 	"testing"
@@ -90,9 +104,13 @@ type env struct {
 	users     map[string]defs.User
 	dsns      map[string]defs.DSN
 	loggers   map[string]bool
+	logNames  []string               // every logger name, sorted
+	logPath   string                 // the server log file inside the fixture directory
+	logFmt    string                 // format of what the current log file holds
 	reached   *router.VerifRouteInfo // set by the probe when a handler is entered
 	stubbed   bool
 	restores  map[string]int
+	dims      map[string]int // fine-grained counters of the configuration / size dimensions
 }
 
 var (
@@ -125,7 +143,7 @@ func getEnv() (*env, error) {
 			envErr = err
 			return
 		}
-		e := &env{f: f, restores: map[string]int{}, users: map[string]defs.User{}, dsns: map[string]defs.DSN{}, loggers: map[string]bool{}}
+		e := &env{f: f, restores: map[string]int{}, dims: map[string]int{}, users: map[string]defs.User{}, dsns: map[string]defs.DSN{}, loggers: map[string]bool{}}
 		fail := func(what string, err error) bool {
 			if err != nil && envErr == nil {
 				envErr = fmt.Errorf("%s: %w", what, err)
@@ -213,6 +231,25 @@ func getEnv() (*env, error) {
 		}
 		if gl.Status == 200 && gl.JSON(&lg) == nil {
 			e.loggers = lg.Loggers
+		}
+		for _, n := range ui.LoggerNames() {
+			if _, ok := e.loggers[n]; !ok {
+				e.loggers[n] = ui.IsActive(ui.LoggerByName(n))
+			}
+		}
+		for n := range e.loggers {
+			if ui.LoggerByName(n) >= 0 {
+				e.logNames = append(e.logNames, n)
+			}
+		}
+		sort.Strings(e.logNames)
+		// the server log goes to a file inside the fixture directory (as it does
+		// for `ego server start`), never to the test's stdout; rollLog truncates
+		// it when it grows or when the log format of a case differs
+		e.logPath = filepath.Join(f.Dir, "c40-server.log")
+		e.logFmt = ui.TextFormat
+		if fail("log file", ui.OpenLogFile(e.logPath, false)) {
+			return
 		}
 		e.settings = map[string]string{}
 		for _, k := range settings.Keys() {
@@ -431,16 +468,68 @@ func (e *env) restore(body []byte) error {
 			return fmt.Errorf("restore tables: %w", err)
 		}
 	}
-	// 6. logger switches
-	if strings.HasPrefix(ep, "/admin/loggers") {
-		for name, on := range e.loggers {
-			if id := ui.LoggerByName(name); id >= 0 && ui.IsActive(id) != on {
-				ui.Active(id, on)
-				e.restores["logger"]++
-			}
+	return nil
+}
+
+// applyConfig puts the server into the configuration state the case drew:
+// exactly the listed loggers active, the log format, the setting overrides.
+// resetConfig undoes it (settings are put back by restore).
+func (e *env) applyConfig(cfg Config) {
+	want := map[string]bool{}
+	for _, n := range cfg.Loggers {
+		want[strings.ToUpper(n)] = true
+	}
+	all := cfg.LogClass == "all"
+	baseline := cfg.LogClass == "" || cfg.LogClass == "baseline"
+	for _, n := range e.logNames {
+		on := all || want[strings.ToUpper(n)]
+		if baseline {
+			on = e.loggers[n]
+		}
+		ui.Active(ui.LoggerByName(n), on)
+	}
+	lf := cfg.LogFormat
+	if lf == "" {
+		lf = ui.TextFormat
+	}
+	e.rollLog(lf)
+	ui.LogFormat = lf
+	keys := make([]string, 0, len(cfg.Settings))
+	for k := range cfg.Settings {
+		keys = append(keys, k)
+	}
+	sort.Strings(keys)
+	for _, k := range keys {
+		settings.SetDefault(k, strings.ReplaceAll(cfg.Settings[k], "@DIR", e.f.Dir))
+	}
+}
+
+func (e *env) resetConfig() {
+	for _, n := range e.logNames {
+		ui.Active(ui.LoggerByName(n), e.loggers[n])
+	}
+	ui.LogFormat = ui.TextFormat
+}
+
+// rollLog starts a fresh log file when the current one has grown past 256 KB,
+// when it has gone away (a write error makes ego fall back to stdout), or when
+// the case logs in another format than the file holds (a real server writes
+// one format per file; the log-tail handler may assume that).
+func (e *env) rollLog(format string) {
+	roll := ui.CurrentLogFile() != e.logPath || format != e.logFmt
+	if !roll {
+		if st, err := os.Stat(e.logPath); err != nil || st.Size() > 256<<10 {
+			roll = true
 		}
 	}
-	return nil
+	if roll {
+		keep := ui.LogFormat
+		ui.LogFormat = format
+		_ = ui.OpenLogFile(e.logPath, false)
+		ui.LogFormat = keep
+		e.logFmt = format
+		e.restores["log-rolled"]++
+	}
 }
 
 // ---------------------------------------------------------------- the case
@@ -458,6 +547,17 @@ type Case struct {
 	QueryClass string `json:"query_class"`
 	HdrClass   string `json:"hdr_class"`
 	BodyClass  string `json:"body_class"`
+	SizeClass  string `json:"size_class,omitempty"` // size class of a sized string in the request, if any
+	// the configuration state of the server while the request is served
+	Cfg Config `json:"cfg"`
+}
+
+// Config is the drawn server configuration of a case.
+type Config struct {
+	Loggers   []string          `json:"loggers,omitempty"`    // loggers switched on (all others off)
+	LogFormat string            `json:"log_format,omitempty"` // "" = text | json | indented
+	Settings  map[string]string `json:"settings,omitempty"`   // setting overrides (restored afterwards)
+	LogClass  string            `json:"log_class"`            // baseline | none | all | single:<X> | rest+<X> | subset (label)
 }
 
 func (e *env) authHeader(c Case) string {
@@ -530,14 +630,17 @@ func oracle(c Case) vkit.Outcome {
 		h["Authorization"] = a
 	}
 	e.reached, e.stubbed = nil, false
+	e.applyConfig(c.Cfg)
 	resp := e.f.Do(srvfix.Request{Method: c.Method, Path: c.Path, Header: h, Body: c.Body})
+	e.resetConfig()
 	if resp.Status == -1 {
+		_ = e.restore(nil)
 		out.Skip = "unsendable target"
 		return out
 	}
 	reached := e.reached
 	out.NonTrivial = reached != nil
-	out.Key = c.Method + " " + c.Endpoint + " | " + c.Auth + " | " + c.PathClass + " | " + c.QueryClass + " | " + c.HdrClass + " | " + c.BodyClass + " | " + fmt.Sprint(vkit.Hash64(c.Path+"\x00"+c.Body))
+	out.Key = c.Method + " " + c.Endpoint + " | " + c.Auth + " | " + c.PathClass + " | " + c.QueryClass + " | " + c.HdrClass + " | " + c.BodyClass + " | " + c.Cfg.LogClass + " | " + fmt.Sprint(vkit.Hash64(c.Path+"\x00"+c.Body+"\x00"+fmt.Sprint(c.Cfg.Settings)))
 	where := "gate"
 	if reached != nil {
 		where = "handler"
@@ -548,6 +651,35 @@ func oracle(c Case) vkit.Outcome {
 		"query=" + c.QueryClass + " -> " + where,
 		"body=" + c.BodyClass + " -> " + where,
 		fmt.Sprintf("status %dxx", resp.Status/100),
+		"log=" + logClassOf(c.Cfg.LogClass) + " -> " + where,
+	}
+	if c.Cfg.LogFormat != "" {
+		out.Labels = append(out.Labels, "logfmt="+c.Cfg.LogFormat)
+	}
+	if c.SizeClass != "" {
+		out.Labels = append(out.Labels, "size="+sizeBucket(c.SizeClass)+" -> "+where)
+		e.dims["size "+c.SizeClass]++
+	}
+	if len(c.Cfg.Settings) == 0 {
+		out.Labels = append(out.Labels, "settings=default")
+	} else {
+		out.Labels = append(out.Labels, "settings=changed -> "+where)
+	}
+	// the fine-grained histograms of the configuration dimensions go to the
+	// evidence as counters (the label list of the evidence is capped)
+	if lc := logClassOf(c.Cfg.LogClass); lc == "single" || lc == "rest+" {
+		e.dims["logger "+c.Cfg.LogClass]++
+	}
+	for _, n := range c.Cfg.Loggers {
+		if reached != nil {
+			e.dims["handler entered with logger "+n]++
+		}
+	}
+	if c.Cfg.LogClass == "all" && reached != nil {
+		e.dims["handler entered with all loggers"]++
+	}
+	for k := range c.Cfg.Settings {
+		e.dims["set "+k]++
 	}
 	for _, hc := range strings.Split(c.HdrClass, "+") {
 		out.Labels = append(out.Labels, "hdr="+hc+" -> "+where)
@@ -566,7 +698,7 @@ func oracle(c Case) vkit.Outcome {
 		}
 		out.Fail = &vkit.Failure{
 			Sig:      "panic:" + site,
-			Observed: fmt.Sprintf("%s %q (auth=%s, headers=%q, body=%q) -> handler panic in %s [%s]: %q", c.Method, clip(c.Path, 300), c.Auth, c.Header, clip(c.Body, 300), site, route, fmt.Sprint(resp.Panic)),
+			Observed: fmt.Sprintf("%s %q (auth=%s, headers=%q, body=%q, loggers=%s %v, settings=%q) -> handler panic in %s [%s]: %q", c.Method, clip(c.Path, 300), c.Auth, c.Header, clip(c.Body, 300), c.Cfg.LogClass, c.Cfg.Loggers, c.Cfg.Settings, site, route, fmt.Sprint(resp.Panic)),
 			Expected: "the handler's own success or error response; the last-resort panic recovery never fires",
 		}
 	}
@@ -576,9 +708,53 @@ func oracle(c Case) vkit.Outcome {
 	return out
 }
 
+// logClassOf maps a log class to its family (single:REST -> single, rest+SQL -> rest+).
+func logClassOf(c string) string {
+	switch {
+	case c == "":
+		return "baseline"
+	case strings.HasPrefix(c, "single:"):
+		return "single"
+	case strings.HasPrefix(c, "rest+"):
+		return "rest+"
+	}
+	return c
+}
+
+// sizeBucket names the threshold a size class sits at.
+func sizeBucket(sc string) string {
+	n, err := strconv.Atoi(sc)
+	switch {
+	case err != nil:
+		return sc
+	case n <= 1:
+		return "0..1"
+	case n <= 11:
+		return "9..11 (10)"
+	case n <= 51:
+		return "46..51 (47,50)"
+	case n <= 81:
+		return "79..81 (80)"
+	case n <= 121:
+		return "116..121 (117,120)"
+	case n <= 257:
+		return "255..257 (256)"
+	case n <= 1025:
+		return "1000..1025 (1024)"
+	case n <= 4097:
+		return "4095..4097 (4096)"
+	case n <= 65536:
+		return "65536"
+	}
+	return "262143..262145 (256 KiB)"
+}
+
 func extra() map[string]any {
 	m := map[string]any{}
 	if theEnv != nil {
+		for k, v := range theEnv.dims {
+			m["dim: "+k] = v
+		}
 		for k, v := range theEnv.restores {
 			m["restored_"+k] = v
 		}
@@ -632,13 +808,16 @@ func TestC40(t *testing.T) {
 			"route = any of the real table (plus unknown paths and wrong methods); path variables = existing names or odd values (empty, 5000 chars, unicode, %00, quotes, .., SQL fragments); " +
 			"query = declared parameters with right/wrong-typed/empty/huge/duplicated values, undeclared ones, malformed pairs; headers = Accept / Accept-Language / Content-Type / Range / Accept-Encoding / cluster-token variants; " +
 			"credentials = admin, non-admin, none, revoked token, Basic (right, wrong), 12 malformed Authorization values; body = the route's documented payload with one mutation (field dropped / retyped / null / nested 1500 deep / huge number / unknown field / duplicate key), another route's payload, a JSON value of the wrong shape, invalid JSON, empty, 1 MB, Ego programs for the code routes. " +
-			"Before the random search an enumerated first-order sweep runs (shard 0, ~2 600 cases): every route plain / with a missing DSN / with each declared parameter alone (empty, good, two ill-typed values) / each path variable with 8 odd values / every documented payload / every leaf of every documented payload emptied or nulled / 10 wrong-shape bodies / without credentials, as non-admin, with the revoked token. " +
+			"Before the random search an enumerated first-order sweep runs: every route plain / with a missing DSN / with each declared parameter alone (empty, good, two ill-typed values) / each path variable with 8 odd values / every documented payload / every leaf of every documented payload emptied or nulled / 10 wrong-shape bodies / without credentials, as non-admin, with the revoked token. " +
+			"Server configuration is part of every case: active loggers (baseline / none / all / each single one / REST+one / random subset), log format (text, json, indented) and 0..3 of 33 branch-switching settings; one string of a payload may be set to a size class (34 lengths on both sides of the thresholds 10, 47/50, 80, 117/120, 256, 1024, 4096, 256 KiB; plain, multi-byte, parsable code that formats long / short, unparsable code). The enumerated sweep also runs the size classes (code routes x 4 kinds x 14 lengths; 48/51/81/121 bytes in every string leaf of the first three payloads of every route), then runs everything a second time with all loggers on, and the plain request of every route under the REST logger alone with JSON logging (~7 000 cases, spread over the shards). " +
 			"Non-trivial: the request passed the gate and entered a handler (probe installed with VerifWrapHandlers); distinct by route x classes x content hash.",
 		Assumptions: []string{
 			"a handler panic propagates to the caller of ServeHTTP because ego.server.panic.recovery=false (restored after every request)",
 			"POST /services/admin/down and POST /services/cluster/shutdown are stubbed (they terminate the process)",
 			"Ego programs sent to /admin/run come from a fixed list of terminating programs",
 			"Content-Length always matches the body (httptest)",
+			"settings never drawn: panic.recovery (the detector), auth.maxattempts (lockout of the administrator), authority / oauth.* / ai.endpoint (outbound network), child.services* (exec), token key / userdata / path settings (would invalidate the fixture), ego.runtime.panics (makes an Ego panic() a Go panic by design)",
+			"the log file holds one log format at a time (it is truncated when a case switches the format)",
 		},
 		Gen:      genCase,
 		Oracle:   oracle,
